@@ -9,6 +9,7 @@ use text2num::replace_numbers_in_text;
 pub const SEPARATORS: [&str; 2] = [" xyzzy plugh xyzzy. ", " plugh xyzzy plugh xyzzy! "];
 pub const PRE: [&str; 8] = ["'", "-", "\"", "(", "« ", "... ", "-'", "''"];
 pub const SUF: [&str; 3] = ["", "'", "-"];
+pub const ODD: [&str; 16] = ["http://example.com/faq", "https://a.b/c?d=1", "a@b.co", "#tag", "3.14", "1,000", "C++", "R&D", "e.g.", "www.x.org", "12:30", "x_y", "50%", "$5", "file:///tmp/x", "a://"];
 pub const PUNCT: [&str; 14] = [",", ", ", ".", ". ", ";", ":", "!", "?", " - ", " / ", "(", "…", "—", " ' "];
 
 pub fn alphabet(l: L, n: usize) -> Vec<String> {
@@ -131,6 +132,35 @@ pub fn run(tier: Tier) -> i32 {
             }
         }
     }));
+    // odd tokens in A (URLs, addresses, figures, symbols) and punctuation glued to the number words of B
+    for l in langs::ALL {
+        let lang = l.facade();
+        let c = vocab::cls(l);
+        let a0s: Vec<String> = vec![String::new(), format!("{} ", c.one), format!("{} ", c.tens), format!("{} ", c.ordinary), format!("{} ", c.sep), format!("{} ", c.conj)];
+        let bw: Vec<String> = vec![c.one.clone(), c.tens.clone(), c.unit.clone(), format!("{},", c.tens), format!("{};", c.unit), format!("{}.", c.unit), c.ordinary.clone(), c.sep.clone()];
+        let bs = phrases(&bw, 2);
+        for &t in &[0.0, 10.0] {
+            let alone_b: Vec<String> = bs.iter().map(|p| guard(|| replace_numbers_in_text(p, &lang, t)).unwrap_or_else(|e| e)).collect();
+            for odd in ODD {
+                for a0 in &a0s {
+                    let a = format!("{a0}{odd}");
+                    let alone_a = guard(|| replace_numbers_in_text(&a, &lang, t)).unwrap_or_else(|e| e);
+                    for (bi, b) in bs.iter().enumerate() {
+                        let s = SEPARATORS[0];
+                        acc.states += 1;
+                        acc.traces += 1;
+                        acc.transitions += 1;
+                        let text = format!("{a}{s}{b}");
+                        let got = guard(|| replace_numbers_in_text(&text, &lang, t)).unwrap_or_else(|e| e);
+                        let want = format!("{alone_a}{s}{}", alone_b[bi]);
+                        if got != want {
+                            ctx.report(&mut acc, Violation { lang: l.code().into(), entry: "replace_text".into(), input: text, threshold: Some(t), clause: "rewrite(A S B, t) = rewrite(A, t) S rewrite(B, t), A ending in an odd token".into(), expected: want, observed: got });
+                        }
+                    }
+                }
+            }
+        }
+    }
     // long first parts: A = an optional enumeration + N filler words, for every N up to the bound
     let nmax = tier.pick(320usize, 2200usize);
     let mut lshards: Vec<(L, usize, usize)> = vec![];
@@ -214,7 +244,7 @@ pub fn run(tier: Tier) -> i32 {
     let cov = json!({
         "exhaustive": true,
         "rule": "all ordered pairs (A,B) of phrases of <= k symbols over the context alphabet x 2 strong separators x thresholds {0,10}, differential: rewrite(A S B) vs rewrite(A) S rewrite(B); all pairs of 30 representative numbers x 14 punctuation strings at threshold 0; non-trivial = pairs where A is changed by rewriting, plus all punctuation cases",
-        "bounds": {"alphabet": n, "phrase_depth": k, "phrases_per_language": per_lang.iter().map(|(l, p)| json!({l.code(): p.len()})).collect::<Vec<_>>(), "separators": SEPARATORS, "punctuation": PUNCT, "edge_decorations": {"prefix_of_B": PRE, "suffix_of_A": SUF, "phrase_depth": k_e}, "long_A_filler_words_up_to": nmax},
+        "bounds": {"alphabet": n, "phrase_depth": k, "phrases_per_language": per_lang.iter().map(|(l, p)| json!({l.code(): p.len()})).collect::<Vec<_>>(), "separators": SEPARATORS, "punctuation": PUNCT, "edge_decorations": {"prefix_of_B": PRE, "suffix_of_A": SUF, "phrase_depth": k_e}, "long_A_filler_words_up_to": nmax, "odd_tokens_ending_A": ODD},
     });
     ctx.finish(acc, cov, vec!["hyphen and apostrophe adjoining letters are word-forming and are not used as separating punctuation".into()])
 }
